@@ -50,7 +50,7 @@ def o_obsolete(group):
 class P(Prop):
     id = "C01"
     quick_cases = 2500
-    thorough_cases = 120000
+    thorough_cases = 500000
     chunk = 500
     rule = (
         "rankings of 0-12 groups drawn from kinds {target, REV__ decoy, rev_ decoy, REV__/rev_ mix, target+decoy mix, "
@@ -105,7 +105,7 @@ class P(Prop):
         raise AssertionError(kind)
 
     def gen_case(self, rng, tier):
-        n = rng.choice([0, 1, 2, 3, 4, 5, 6, 7, 8, 10, 12])
+        n = rng.choice([0, 1, 2, 2, 3, 3, 4, 4, 5, 5, 6, 6, 7, 8, 8, 10, 12, 12])
         kinds = ["T"] * 6 + ["D"] * 3 + ["d"] * 2 + ["mixmark", "mixTD", "oT", "oD", "empty", "odd"]
         # per case: sometimes targets or decoys only, sometimes decoy-rich
         r = rng.random()
@@ -128,7 +128,7 @@ class P(Prop):
         scores = [rat(x) for x in sc]
         r = rng.random()
         if n and r < 0.35:  # sentinel tail, as do_competition produces it
-            k = rng.randint(0, n)
+            k = rng.randint(0 if rng.random() < 0.1 else 1, n)
             scores = scores[:k] + [SENT] * (n - k)
         elif n and r < 0.45:  # a sentinel in the middle, ordinary scores after it
             scores[rng.randrange(n)] = SENT
